@@ -1,3 +1,728 @@
-use crate::common::{Args, engine_error};
+//! C12 — "Built-in output checkers decide exactly their documented relation".
+//!
+//! Technique: bounded-exhaustive enumeration of a finite alphabet. For every built-in output checker `H`, every output
+//! type `O` of the alphabet and every ORDERED pair `(o1, o2)` of values of `O`, the harness stamps `o1`, checks `o2`
+//! against that stamp, and compares "consistent" (`check(o2, stamp(o1))` is `None`) with a tiny reference predicate
+//! written from the documentation of the checker. Every case goes through three routes:
+//!
+//! 1. `trait`: `OutputChecker::stamp` / `OutputChecker::check` called directly;
+//! 2. `topdown`: a real `Pie`; a source task returns the value of a harness-controlled cell (a key of the in-memory map
+//!    resource, changed through `Pie::resource_state_mut` between sessions); a parent task requires the source with the
+//!    checker under test. Session 1 builds with `o1`, the cell is changed to `o2`, session 2 requires the parent again:
+//!    the parent must be re-executed iff the relation does NOT hold. A third session without any change must execute
+//!    nothing (every output is consistent with its own stamp);
+//! 3. `bottomup`: as 2, but sessions 2 and 3 use `create_bottom_up_build` + `schedule_tasks_affected_by(cell)` +
+//!    `update_affected_tasks`, followed by `Session::require(parent)` in the same session (which must not execute
+//!    anything more).
+//!
+//! In routes 2 and 3 a `Tracker` additionally records the stamp pie stored for the dependency and the verdict of the
+//! dependency check pie performed (`check_task_end` resp. `check_task_require_task_end`); both are compared with the
+//! direct route and the reference relation.
+//!
+//! The object-safe proxy `pie::trait_object::task::OutputCheckerObj` is NOT reachable from outside the crate (module
+//! `trait_object::task` is `pub(crate)` and the trait is not re-exported; inside pie it is dead code). The object-safe
+//! path pie really uses for output checkers is `TaskDependencyObj` (`dependency.rs`), which routes 2 and 3 exercise
+//! (`TopDownCheckObj::is_consistent` and `TaskDependencyObj::is_consistent_bottom_up`).
+//!
+//! Parametricity argument (recorded in the evidence): the five checkers use nothing of the payload but `==`, `clone`,
+//! `is_ok`/`is_err`/`ok()`/`err()`; three distinct payload values therefore exercise every branch (equal, different,
+//! and "different from both"), for both `Ok` and `Err`.
 
-pub fn run(_args: &Args) -> i32 { engine_error("not implemented yet") }
+use std::cell::Cell;
+use std::collections::{BTreeMap, BTreeSet};
+use std::fmt::Debug;
+use std::hash::Hash;
+use std::marker::PhantomData;
+use std::panic::{catch_unwind, AssertUnwindSafe};
+
+use serde_json::{json, Value};
+
+use pie::resource::map::{GetGlobalMap, MapEqualsChecker, MapKey};
+use pie::task::{AlwaysConsistent, EqualsChecker, ErrEqualsChecker, OkEqualsChecker, ResultChecker};
+use pie::tracker::Tracker;
+use pie::trait_object::{KeyObj, ValueObj};
+use pie::{Context, OutputChecker, Pie, Task};
+
+use crate::common::{engine_error, Args, Report, Tier, Violation};
+
+// ---------------------------------------------------------------------------------------------------------------------
+// Reference predicates (the oracle): "is `o2` consistent with the stamp of `o1`?" per the documentation in task.rs.
+// ---------------------------------------------------------------------------------------------------------------------
+
+/// `EqualsChecker`: "checks by equality".
+pub fn rel_equals<O: PartialEq>(o1: &O, o2: &O) -> bool { o1 == o2 }
+
+/// `OkEqualsChecker`: "checks Ok by equality, but Err only by existence" — all errors are equivalent.
+pub fn rel_ok_equals<T: PartialEq, E>(o1: &Result<T, E>, o2: &Result<T, E>) -> bool {
+  match (o1, o2) {
+    (Ok(a), Ok(b)) => a == b,
+    (Err(_), Err(_)) => true,
+    _ => false,
+  }
+}
+
+/// `ErrEqualsChecker`: "checks Err by equality, but Ok only by existence" — all successes are equivalent.
+pub fn rel_err_equals<T, E: PartialEq>(o1: &Result<T, E>, o2: &Result<T, E>) -> bool {
+  match (o1, o2) {
+    (Err(a), Err(b)) => a == b,
+    (Ok(_), Ok(_)) => true,
+    _ => false,
+  }
+}
+
+/// `ResultChecker`: "checks whether a Result changes from Ok to Err or vice versa".
+pub fn rel_result<T, E>(o1: &Result<T, E>, o2: &Result<T, E>) -> bool {
+  matches!((o1, o2), (Ok(_), Ok(_)) | (Err(_), Err(_)))
+}
+
+/// `AlwaysConsistent`: "marks task dependencies as always consistent".
+pub fn rel_always<O>(_o1: &O, _o2: &O) -> bool { true }
+
+// ---------------------------------------------------------------------------------------------------------------------
+// Alphabet
+// ---------------------------------------------------------------------------------------------------------------------
+
+fn payloads(tier: Tier) -> Vec<u8> {
+  match tier {
+    Tier::Quick => vec![0, 1, 2],
+    Tier::Thorough => vec![0, 1, 2, 3, 254, 255],
+  }
+}
+
+/// An output type of the alphabet.
+pub trait Alpha: Clone + Eq + Hash + Debug + 'static {
+  const NAME: &'static str;
+  fn alphabet(tier: Tier) -> Vec<Self>;
+}
+
+impl Alpha for u8 {
+  const NAME: &'static str = "u8";
+  fn alphabet(tier: Tier) -> Vec<Self> { payloads(tier) }
+}
+
+impl Alpha for Option<u8> {
+  const NAME: &'static str = "Option<u8>";
+  fn alphabet(tier: Tier) -> Vec<Self> {
+    let mut v = vec![None];
+    v.extend(payloads(tier).into_iter().map(Some));
+    v
+  }
+}
+
+impl Alpha for () {
+  const NAME: &'static str = "()";
+  fn alphabet(_tier: Tier) -> Vec<Self> { vec![()] }
+}
+
+impl Alpha for String {
+  const NAME: &'static str = "String";
+  fn alphabet(tier: Tier) -> Vec<Self> {
+    let words: &[&str] = match tier {
+      Tier::Quick => &["", "a", "b", "ab"],
+      Tier::Thorough => &["", "a", "b", "ab", "ba", "aa", "abc", "A"],
+    };
+    words.iter().map(|s| s.to_string()).collect()
+  }
+}
+
+impl Alpha for Result<u8, u8> {
+  const NAME: &'static str = "Result<u8,u8>";
+  fn alphabet(tier: Tier) -> Vec<Self> {
+    let p = payloads(tier);
+    let mut v: Vec<Self> = p.iter().map(|x| Ok(*x)).collect();
+    v.extend(p.iter().map(|x| Err(*x)));
+    v
+  }
+}
+
+// ---------------------------------------------------------------------------------------------------------------------
+// End-to-end plumbing: cell key, source task, parent task, tracker.
+// ---------------------------------------------------------------------------------------------------------------------
+
+thread_local! {
+  static SRC_EXECS: Cell<u32> = const { Cell::new(0) };
+  static PARENT_EXECS: Cell<u32> = const { Cell::new(0) };
+}
+
+fn counts() -> (u32, u32) { (PARENT_EXECS.with(|c| c.get()), SRC_EXECS.with(|c| c.get())) }
+
+/// Harness-controlled cell: a key of the in-memory map resource holding `(tick, output)`. The tick changes before
+/// every session that follows a change, so the source task is re-executed even when `o1 == o2`.
+#[derive(Clone, PartialEq, Eq, Hash, Debug)]
+struct CellKey<O>(PhantomData<O>);
+
+impl<O: Alpha> MapKey for CellKey<O> {
+  type Value = (u32, O);
+}
+
+/// Source task: returns the output stored in the cell.
+#[derive(Clone, PartialEq, Eq, Hash, Debug)]
+struct Src<O>(PhantomData<O>);
+
+impl<O: Alpha> Task for Src<O> {
+  type Output = O;
+  fn execute<C: Context>(&self, context: &mut C) -> O {
+    SRC_EXECS.with(|c| c.set(c.get() + 1));
+    let reader = context.read(&CellKey::<O>(PhantomData), MapEqualsChecker).unwrap();
+    reader.expect("harness: cell not set").1.clone()
+  }
+}
+
+/// Parent task: requires the source with the checker under test.
+#[derive(Clone, PartialEq, Eq, Hash, Debug)]
+struct Parent<O, H> {
+  checker: H,
+  _p: PhantomData<O>,
+}
+
+impl<O: Alpha, H: OutputChecker<O>> Task for Parent<O, H> {
+  type Output = ();
+  fn execute<C: Context>(&self, context: &mut C) {
+    PARENT_EXECS.with(|c| c.set(c.get() + 1));
+    let _ = context.require(&Src::<O>(PhantomData), self.checker.clone());
+  }
+}
+
+/// Records the stamps pie created for the parent→source dependency and the verdicts of pie's own dependency checks.
+#[derive(Default)]
+struct Rec {
+  /// Debug form of the stamp of every `require_end` of the source task.
+  require_stamps: Vec<String>,
+  /// (stamp, inconsistent?) of every top-down check of the parent→source dependency (`check_task_end`).
+  checks_top_down: Vec<(String, bool)>,
+  /// (stamp, inconsistent?) of every bottom-up check of that dependency (`check_task_require_task_end`).
+  checks_bottom_up: Vec<(String, bool)>,
+}
+
+impl Tracker for Rec {
+  fn require_end(&mut self, task: &dyn KeyObj, _checker: &dyn ValueObj, stamp: &dyn ValueObj, _output: &dyn ValueObj) {
+    if format!("{:?}", task).starts_with("Src(") {
+      self.require_stamps.push(format!("{:?}", stamp));
+    }
+  }
+  fn check_task_end(&mut self, task: &dyn KeyObj, _checker: &dyn ValueObj, stamp: &dyn ValueObj, inconsistency: Option<&dyn Debug>) {
+    if format!("{:?}", task).starts_with("Src(") {
+      self.checks_top_down.push((format!("{:?}", stamp), inconsistency.is_some()));
+    }
+  }
+  fn check_task_require_task_end(&mut self, requiring_task: &dyn KeyObj, _checker: &dyn ValueObj, stamp: &dyn ValueObj, inconsistency: Option<&dyn Debug>) {
+    if format!("{:?}", requiring_task).starts_with("Parent") {
+      self.checks_bottom_up.push((format!("{:?}", stamp), inconsistency.is_some()));
+    }
+  }
+}
+
+// ---------------------------------------------------------------------------------------------------------------------
+// Observations
+// ---------------------------------------------------------------------------------------------------------------------
+
+/// Observation of the direct route.
+#[derive(Clone, Debug, PartialEq, Eq)]
+struct TraitObs {
+  stamp: String,
+  inconsistency: Option<String>,
+}
+
+/// Observation of one end-to-end route: (parent executions, source executions) per session, tracker data per session.
+#[derive(Clone, Debug, PartialEq, Eq)]
+struct E2eObs {
+  execs: [(u32, u32); 3],
+  /// Executions caused by the `Session::require(parent)` that follows a bottom-up update (sessions 2 and 3).
+  post_require_execs: [(u32, u32); 2],
+  /// Dependency checks performed by that `Session::require` (top-down checks inside a bottom-up session).
+  post_require_checks: [Vec<(String, bool)>; 2],
+  require_stamps: [Vec<String>; 3],
+  checks: [Vec<(String, bool)>; 3],
+  dependency_check_errors: usize,
+}
+
+impl E2eObs {
+  fn to_json(&self) -> Value {
+    json!({
+      "parent_src_execs_per_session": self.execs.iter().map(|(p, s)| json!([p, s])).collect::<Vec<_>>(),
+      "post_require_execs": self.post_require_execs.iter().map(|(p, s)| json!([p, s])).collect::<Vec<_>>(),
+      "post_require_checks": self.post_require_checks.iter().map(|v| v.iter().map(|(s, i)| json!({"stamp": s, "inconsistent": i})).collect::<Vec<_>>()).collect::<Vec<_>>(),
+      "require_stamps_per_session": self.require_stamps,
+      "dependency_checks_per_session": self.checks.iter().map(|v| v.iter().map(|(s, i)| json!({"stamp": s, "inconsistent": i})).collect::<Vec<_>>()).collect::<Vec<_>>(),
+      "dependency_check_errors": self.dependency_check_errors,
+    })
+  }
+}
+
+#[derive(Clone, Debug, PartialEq, Eq)]
+enum Outcome<T> { Done(T), Panicked(String) }
+
+#[derive(Clone, Debug, PartialEq, Eq)]
+struct CaseObs {
+  direct: Outcome<TraitObs>,
+  topdown: Outcome<E2eObs>,
+  bottomup: Outcome<E2eObs>,
+}
+
+fn panic_text(p: Box<dyn std::any::Any + Send>) -> String {
+  if let Some(s) = p.downcast_ref::<&str>() { s.to_string() } else if let Some(s) = p.downcast_ref::<String>() { s.clone() } else { "<non-string panic>".into() }
+}
+
+fn guarded<T>(f: impl FnOnce() -> T) -> Outcome<T> {
+  match catch_unwind(AssertUnwindSafe(f)) {
+    Ok(v) => Outcome::Done(v),
+    Err(p) => Outcome::Panicked(panic_text(p)),
+  }
+}
+
+fn direct_route<O: Alpha, H: OutputChecker<O>>(h: &H, o1: &O, o2: &O) -> TraitObs {
+  let stamp = h.stamp(o1);
+  let inconsistency = h.check(o2, &stamp).map(|i| format!("{:?}", i));
+  TraitObs { stamp: format!("{:?}", stamp), inconsistency }
+}
+
+fn set_cell<O: Alpha>(pie: &mut Pie<Rec>, tick: u32, o: &O) {
+  pie.resource_state_mut::<CellKey<O>>().get_global_map_mut().insert(CellKey(PhantomData), (tick, o.clone()));
+}
+
+fn take_tracker(pie: &mut Pie<Rec>) -> Rec { std::mem::take(pie.tracker_mut()) }
+
+fn e2e_route<O: Alpha, H: OutputChecker<O>>(h: &H, o1: &O, o2: &O, bottom_up: bool) -> E2eObs {
+  let parent = Parent::<O, H> { checker: h.clone(), _p: PhantomData };
+  let cell = CellKey::<O>(PhantomData);
+  let mut pie = Pie::with_tracker(Rec::default());
+  let mut obs = E2eObs {
+    execs: [(0, 0); 3],
+    post_require_execs: [(0, 0); 2],
+    post_require_checks: Default::default(),
+    require_stamps: Default::default(),
+    checks: Default::default(),
+    dependency_check_errors: 0,
+  };
+  let delta = |before: (u32, u32)| { let now = counts(); (now.0 - before.0, now.1 - before.1) };
+
+  // Session 1: initial (always top-down: nothing exists yet).
+  set_cell(&mut pie, 1, o1);
+  let before = counts();
+  {
+    let mut session = pie.new_session();
+    session.require(&parent);
+    obs.dependency_check_errors += session.dependency_check_errors().len();
+  }
+  obs.execs[0] = delta(before);
+  let t = take_tracker(&mut pie);
+  obs.require_stamps[0] = t.require_stamps;
+  obs.checks[0] = t.checks_top_down;
+
+  // Session 2: the cell changes from o1 to o2 (the tick always changes). Session 3: nothing changes.
+  for s in 1..3 {
+    if s == 1 { set_cell(&mut pie, 2, o2); }
+    let before = counts();
+    {
+      let mut session = pie.new_session();
+      if bottom_up {
+        let mut build = session.create_bottom_up_build();
+        build.schedule_tasks_affected_by(&cell);
+        build.update_affected_tasks();
+        obs.execs[s] = delta(before);
+        let before_post = counts();
+        session.require(&parent);
+        obs.post_require_execs[s - 1] = delta(before_post);
+      } else {
+        session.require(&parent);
+        obs.execs[s] = delta(before);
+      }
+      obs.dependency_check_errors += session.dependency_check_errors().len();
+    }
+    // The session borrows the tracker, so the two phases of a bottom-up session are told apart by event kind:
+    // `check_task_require_task_end` only occurs during the update, `check_task_end` only during `Session::require`.
+    let t = take_tracker(&mut pie);
+    obs.require_stamps[s] = t.require_stamps;
+    if bottom_up {
+      obs.checks[s] = t.checks_bottom_up;
+      obs.post_require_checks[s - 1] = t.checks_top_down;
+    } else {
+      obs.checks[s] = t.checks_top_down;
+      if !t.checks_bottom_up.is_empty() { obs.dependency_check_errors += 1000; }
+    }
+  }
+  obs
+}
+
+fn observe_case<O: Alpha, H: OutputChecker<O>>(h: &H, o1: &O, o2: &O) -> CaseObs {
+  CaseObs {
+    direct: guarded(|| direct_route(h, o1, o2)),
+    topdown: guarded(|| e2e_route(h, o1, o2, false)),
+    bottomup: guarded(|| e2e_route(h, o1, o2, true)),
+  }
+}
+
+/// A failed oracle: (oracle id, description). `anomaly` = the harness could not evaluate the case (not a verdict).
+#[derive(Clone, Debug, PartialEq, Eq)]
+struct Failure { oracle: &'static str, what: String, anomaly: bool }
+
+struct Judgement { failures: Vec<Failure>, evaluations: u64 }
+
+/// Judges one case. `expected` = the reference relation (consistent?). `stamp_o1`/`stamp_o2` = Debug form of the stamps
+/// the direct route produced for o1 and o2 (used to bind the stamps pie stores to the checker's stamps).
+fn judge(expected: bool, obs: &CaseObs, stamp_o2: Option<&str>) -> Judgement {
+  let mut f = Vec::new();
+  let mut n = 0u64;
+  let mut anomalies = Vec::new();
+  let mut fail = |oracle: &'static str, what: String| f.push(Failure { oracle, what, anomaly: false });
+  let stamp_o1 = match &obs.direct {
+    Outcome::Panicked(p) => { fail("C12/panic", format!("direct stamp/check panicked: {}", p)); None }
+    Outcome::Done(d) => {
+      n += 1;
+      let consistent = d.inconsistency.is_none();
+      if consistent != expected {
+        fail("C12/relation", format!("direct route: check(o2, stamp(o1)) reported {} but the documented relation says {} (stamp {}, inconsistency {:?})",
+          word(consistent), word(expected), d.stamp, d.inconsistency));
+      }
+      Some(d.stamp.clone())
+    }
+  };
+  for (route, o) in [("topdown", &obs.topdown), ("bottomup", &obs.bottomup)] {
+    let e = match o {
+      Outcome::Panicked(p) => { fail("C12/panic", format!("{} route panicked: {}", route, p)); continue; }
+      Outcome::Done(e) => e,
+    };
+    // Harness sanity: first build executes both tasks once; the source is re-executed exactly once in session 2 and
+    // not at all in session 3; no dependency check errors. These are not C12 verdicts.
+    if e.execs[0] != (1, 1) || e.execs[1].1 != 1 || e.execs[2].1 != 0 || e.dependency_check_errors != 0 {
+      anomalies.push(Failure { oracle: "C12/harness", what: format!("{} route: unexpected execution counts outside the checker's control: {:?}", route, e), anomaly: true });
+      continue;
+    }
+    // (1) Build behaviour: parent re-executed iff the relation says inconsistent.
+    n += 1;
+    let reexecuted = e.execs[1].0;
+    if reexecuted != (if expected { 0 } else { 1 }) {
+      fail("C12/relation", format!("{} route: parent executed {} time(s) after the output changed from o1 to o2, but the documented relation says {}",
+        route, reexecuted, word(expected)));
+    }
+    // (2) Pie's own dependency check verdict, exactly one check of the parent->source dependency in session 2.
+    n += 1;
+    if e.checks[1].len() != 1 {
+      fail("C12/relation", format!("{} route: expected exactly one check of the parent->source dependency in session 2, saw {:?}", route, e.checks[1]));
+    } else {
+      let (stamp, inconsistent) = &e.checks[1][0];
+      if *inconsistent == expected {
+        fail("C12/relation", format!("{} route: pie's dependency check reported {} but the documented relation says {}", route, word(!*inconsistent), word(expected)));
+      }
+      n += 1;
+      if let Some(s1) = &stamp_o1 {
+        if stamp != s1 {
+          fail("C12/stamp", format!("{} route: the stamp checked by pie ({}) is not the checker's stamp of o1 ({})", route, stamp, s1));
+        }
+      }
+    }
+    // (3) Stamps pie stored at require time: session 1 stamps o1; session 2 stamps o2 iff the parent was re-executed.
+    n += 1;
+    if let Some(s1) = &stamp_o1 {
+      if e.require_stamps[0] != vec![s1.clone()] {
+        fail("C12/stamp", format!("{} route: stamp stored in session 1 is {:?}, direct stamp of o1 is {}", route, e.require_stamps[0], s1));
+      }
+    }
+    if let Some(s2) = stamp_o2 {
+      n += 1;
+      let expect: Vec<String> = if reexecuted > 0 { vec![s2.to_string(); reexecuted as usize] } else { vec![] };
+      if e.require_stamps[1] != expect {
+        fail("C12/stamp", format!("{} route: stamps stored in session 2 are {:?}, expected {:?}", route, e.require_stamps[1], expect));
+      }
+    }
+    // (4) Session 3 (no change): nothing executes, whatever was decided in session 2 (own-stamp consistency when the
+    // parent was re-executed; the same pair again when it was not).
+    n += 1;
+    if e.execs[2] != (0, 0) {
+      fail("C12/self-consistency", format!("{} route: a session without any change executed (parent, source) = {:?}", route, e.execs[2]));
+    }
+    n += 1;
+    if e.checks[2].iter().any(|(_, inconsistent)| *inconsistent) {
+      fail("C12/self-consistency", format!("{} route: a dependency check in a session without any change reported inconsistent: {:?}", route, e.checks[2]));
+    }
+    // (5) Bottom-up only: the `Session::require` after the update executes nothing.
+    n += 1;
+    if e.post_require_execs != [(0, 0); 2] {
+      fail("C12/relation", format!("{} route: Session::require after update_affected_tasks executed (parent, source) = {:?}", route, e.post_require_execs));
+    }
+    n += 1;
+    if e.post_require_checks.iter().flatten().any(|(_, inconsistent)| *inconsistent) {
+      fail("C12/relation", format!("{} route: a top-down check after update_affected_tasks reported inconsistent: {:?}", route, e.post_require_checks));
+    }
+  }
+  f.extend(anomalies);
+  Judgement { failures: f, evaluations: n }
+}
+
+fn word(consistent: bool) -> &'static str { if consistent { "consistent" } else { "inconsistent" } }
+
+// ---------------------------------------------------------------------------------------------------------------------
+// Driver
+// ---------------------------------------------------------------------------------------------------------------------
+
+#[derive(Clone, Debug)]
+struct Filter { checker: String, ty: String, o1: String, o2: String }
+
+struct Ctx {
+  tier: Tier,
+  filter: Option<Filter>,
+  /// Replay mode: observe twice and demand identical observations.
+  twice: bool,
+  stamp_states: BTreeSet<(String, String, String)>,
+  transitions: u64,
+  e2e_runs: u64,
+  evaluations: u64,
+  nontrivial: BTreeSet<(String, String, String, String)>,
+  outcomes: BTreeMap<(String, String, bool), u64>,
+  per_checker: BTreeMap<String, (u64, u64)>,
+  samples: Vec<Value>,
+  sample_keys: BTreeSet<(String, bool)>,
+  failures: Vec<(Failure, Value)>,
+  matched: u64,
+}
+
+fn drive<O: Alpha, H: OutputChecker<O>>(ctx: &mut Ctx, h: H, checker: &'static str, rel: fn(&O, &O) -> bool) {
+  let alphabet = O::alphabet(ctx.tier);
+  for o1 in &alphabet {
+    let d1 = format!("{:?}", o1);
+    for o2 in &alphabet {
+      let d2 = format!("{:?}", o2);
+      if let Some(flt) = &ctx.filter {
+        if flt.checker != checker || flt.ty != O::NAME || flt.o1 != d1 || flt.o2 != d2 { continue; }
+      }
+      ctx.matched += 1;
+      ctx.stamp_states.insert((checker.to_string(), O::NAME.to_string(), d1.clone()));
+      ctx.transitions += 1;
+      ctx.e2e_runs += 2;
+      let expected = rel(o1, o2);
+      let obs = observe_case(&h, o1, o2);
+      if ctx.twice {
+        let again = observe_case(&h, o1, o2);
+        if again != obs {
+          engine_error(&format!("C12 replay: two executions of the same case differ:\n{:?}\n{:?}", obs, again));
+        }
+      }
+      let stamp_o2 = guarded(|| format!("{:?}", h.stamp(o2)));
+      let stamp_o2 = match &stamp_o2 { Outcome::Done(s) => Some(s.as_str()), Outcome::Panicked(_) => None };
+      let j = judge(expected, &obs, stamp_o2);
+      ctx.evaluations += j.evaluations;
+      if o1 != o2 { ctx.nontrivial.insert((checker.to_string(), O::NAME.to_string(), d1.clone(), d2.clone())); }
+      if let Outcome::Done(d) = &obs.direct {
+        *ctx.outcomes.entry((checker.to_string(), O::NAME.to_string(), d.inconsistency.is_none())).or_default() += 1;
+        let e = ctx.per_checker.entry(checker.to_string()).or_default();
+        if d.inconsistency.is_none() { e.0 += 1 } else { e.1 += 1 }
+      }
+      let case_json = |obs: &CaseObs| json!({
+        "checker": checker, "type": O::NAME, "o1": d1, "o2": d2, "tier": ctx.tier.as_str(),
+        "expected": word(expected),
+        "observed": {
+          "direct": match &obs.direct { Outcome::Done(d) => json!({"stamp_of_o1": d.stamp, "inconsistency": d.inconsistency}), Outcome::Panicked(p) => json!({"panic": p}) },
+          "topdown": match &obs.topdown { Outcome::Done(e) => e.to_json(), Outcome::Panicked(p) => json!({"panic": p}) },
+          "bottomup": match &obs.bottomup { Outcome::Done(e) => e.to_json(), Outcome::Panicked(p) => json!({"panic": p}) },
+        },
+      });
+      // Samples: per checker the first off-diagonal consistent and the first inconsistent case (plus first diagonal).
+      let class = (checker.to_string(), expected);
+      if (o1 != o2 || !expected || checker == "EqualsChecker") && ctx.sample_keys.insert(class) && ctx.samples.len() < 12 {
+        ctx.samples.push(case_json(&obs));
+      }
+      for f in j.failures {
+        ctx.failures.push((f, case_json(&obs)));
+      }
+    }
+  }
+}
+
+macro_rules! for_all_combos {
+  ($ctx:expr) => {{
+    drive::<u8, _>($ctx, EqualsChecker, "EqualsChecker", rel_equals);
+    drive::<Option<u8>, _>($ctx, EqualsChecker, "EqualsChecker", rel_equals);
+    drive::<(), _>($ctx, EqualsChecker, "EqualsChecker", rel_equals);
+    drive::<String, _>($ctx, EqualsChecker, "EqualsChecker", rel_equals);
+    drive::<Result<u8, u8>, _>($ctx, EqualsChecker, "EqualsChecker", rel_equals);
+    drive::<Result<u8, u8>, _>($ctx, OkEqualsChecker, "OkEqualsChecker", rel_ok_equals);
+    drive::<Result<u8, u8>, _>($ctx, ErrEqualsChecker, "ErrEqualsChecker", rel_err_equals);
+    drive::<Result<u8, u8>, _>($ctx, ResultChecker, "ResultChecker", rel_result);
+    drive::<u8, _>($ctx, AlwaysConsistent, "AlwaysConsistent", rel_always);
+    drive::<Option<u8>, _>($ctx, AlwaysConsistent, "AlwaysConsistent", rel_always);
+    drive::<(), _>($ctx, AlwaysConsistent, "AlwaysConsistent", rel_always);
+    drive::<String, _>($ctx, AlwaysConsistent, "AlwaysConsistent", rel_always);
+    drive::<Result<u8, u8>, _>($ctx, AlwaysConsistent, "AlwaysConsistent", rel_always);
+  }};
+}
+
+fn new_ctx(tier: Tier, filter: Option<Filter>, twice: bool) -> Ctx {
+  Ctx {
+    tier, filter, twice,
+    stamp_states: BTreeSet::new(), transitions: 0, e2e_runs: 0, evaluations: 0,
+    nontrivial: BTreeSet::new(), outcomes: BTreeMap::new(), per_checker: BTreeMap::new(),
+    samples: Vec::new(), sample_keys: BTreeSet::new(), failures: Vec::new(), matched: 0,
+  }
+}
+
+fn with_quiet_panics<T>(f: impl FnOnce() -> T) -> T {
+  let old = std::panic::take_hook();
+  std::panic::set_hook(Box::new(|_| {}));
+  let r = f();
+  std::panic::set_hook(old);
+  r
+}
+
+fn to_violation(f: &Failure, case: &Value) -> Violation {
+  Violation {
+    property: "C12".into(),
+    oracle: f.oracle.into(),
+    key: String::new(),
+    what: format!("{} on {} with o1 = {}, o2 = {}: {}", case["checker"].as_str().unwrap_or("?"), case["type"].as_str().unwrap_or("?"),
+      case["o1"].as_str().unwrap_or("?"), case["o2"].as_str().unwrap_or("?"), f.what),
+    replay: case.clone(),
+  }
+}
+
+fn run_replay(args: &Args, path: &std::path::Path) -> i32 {
+  let text = std::fs::read_to_string(path).unwrap_or_else(|e| engine_error(&format!("cannot read replay file {}: {}", path.display(), e)));
+  let v: Value = serde_json::from_str(&text).unwrap_or_else(|e| engine_error(&format!("replay file does not parse: {}", e)));
+  let r = v.get("replay").unwrap_or(&v);
+  let s = |k: &str| r.get(k).and_then(|x| x.as_str()).map(|x| x.to_string())
+    .unwrap_or_else(|| engine_error(&format!("replay object lacks string field '{}'", k)));
+  let filter = Filter { checker: s("checker"), ty: s("type"), o1: s("o1"), o2: s("o2") };
+  // The thorough alphabet is a superset of the quick one: replay looks the case up there.
+  let mut ctx = new_ctx(Tier::Thorough, Some(filter.clone()), true);
+  with_quiet_panics(|| for_all_combos!(&mut ctx));
+  if ctx.matched != 1 {
+    engine_error(&format!("replay case {:?} matched {} cases of the alphabet (expected 1)", filter, ctx.matched));
+  }
+  // Replay never touches the evidence file of the property; it only prints its verdict.
+  let _ = args;
+  let verdicts: Vec<&(Failure, Value)> = ctx.failures.iter().filter(|(f, _)| !f.anomaly).collect();
+  if verdicts.is_empty() {
+    if let Some((f, _)) = ctx.failures.iter().find(|(f, _)| f.anomaly) {
+      engine_error(&format!("C12 replay: {}", f.what));
+    }
+    println!("replay: no violation");
+    return 0;
+  }
+  for (f, _) in &verdicts {
+    println!("replay: still failing: {} {}", f.oracle, f.what);
+  }
+  println!("VIOLATION property=C12 replay={}", path.display());
+  println!("  oracle={} key= what={}", verdicts[0].0.oracle, to_violation(&verdicts[0].0, &verdicts[0].1).what);
+  1
+}
+
+pub fn run(args: &Args) -> i32 {
+  if let Some(path) = &args.replay {
+    return run_replay(args, path);
+  }
+  let mut rep = Report::new(args);
+  let mut ctx = new_ctx(args.tier, None, false);
+  with_quiet_panics(|| for_all_combos!(&mut ctx));
+
+  let payload = payloads(args.tier);
+  rep.set("states", json!(ctx.stamp_states.len()));
+  rep.set("transitions", json!(ctx.transitions));
+  rep.set("traces_validated_against_impl", json!(ctx.transitions + ctx.e2e_runs));
+  rep.set("end_to_end_pie_runs", json!(ctx.e2e_runs));
+  rep.set("evaluations", json!(ctx.evaluations));
+  rep.set("distinct_nontrivial", json!(ctx.nontrivial.len()));
+  rep.set("distinct_nontrivial_rule", json!("distinct (checker, output type, o1, o2) with o1 != o2, i.e. every case whose verdict does not follow from reflexivity alone"));
+  rep.set("distinct_outcomes", json!(ctx.outcomes.len()));
+  rep.set("distinct_outcomes_detail", Value::Array(ctx.outcomes.iter().map(|((c, t, cons), n)| json!({"checker": c, "type": t, "verdict": word(*cons), "cases": n})).collect()));
+  rep.set("per_checker_consistent_inconsistent", Value::Object(ctx.per_checker.iter().map(|(c, (a, b))| (c.clone(), json!({"consistent": a, "inconsistent": b}))).collect()));
+  rep.set("samples", Value::Array(ctx.samples.clone()));
+  rep.set("exhaustive", json!(true));
+  rep.set("rule", json!("every ordered pair (o1 stamped, o2 checked) of the finite alphabet, for every (checker, output type) combination, through three routes: OutputChecker trait directly; real Pie top-down (parent re-executed iff relation fails); real Pie bottom-up; 'states' = distinct (checker, type, o1) stamp states, 'transitions' = (stamp state, o2) checks"));
+  rep.set("bounds", json!({
+    "payload_values": payload,
+    "Result<u8,u8>_values": Result::<u8, u8>::alphabet(args.tier).len(),
+    "Option<u8>_values": Option::<u8>::alphabet(args.tier).len(),
+    "String_values": String::alphabet(args.tier),
+    "checker_type_combinations": 13,
+    "routes": ["trait", "topdown", "bottomup"],
+    "object_safe_proxy": "pie::trait_object::task::OutputCheckerObj is pub(crate)-unreachable (and dead code inside pie); the object-safe path pie actually uses (TaskDependencyObj: TopDownCheckObj::is_consistent, is_consistent_bottom_up) is covered by the topdown/bottomup routes",
+    "parametricity": "the checkers use only ==, clone, is_ok/is_err/ok()/err() of the payload, so three distinct payload values exercise every branch; the unbounded claim rests on this argument",
+  }));
+  rep.assume("Output types other than u8, Option<u8>, (), String, Result<u8,u8> behave alike because the checkers are parametric in the payload (only ==, clone, is_ok/is_err are used).");
+  rep.assume("OutputCheckerObj (object-safe proxy) is not nameable from an external crate; covered indirectly through TaskDependencyObj in real builds.");
+
+  let mut anomalies = Vec::new();
+  for (f, case) in &ctx.failures {
+    if f.anomaly { anomalies.push(f.what.clone()); } else { rep.violation(to_violation(f, case)); }
+  }
+  if rep.violation_count() == 0 {
+    if let Some(a) = anomalies.first() {
+      engine_error(&format!("C12: {} end-to-end run(s) could not be evaluated, first: {}", anomalies.len(), a));
+    }
+  }
+  rep.finish()
+}
+
+#[cfg(test)]
+mod tests {
+  use super::*;
+
+  fn results() -> Vec<Result<u8, u8>> { Result::<u8, u8>::alphabet(Tier::Quick) }
+
+  #[test]
+  fn alphabet_sizes() {
+    assert_eq!(results().len(), 6);
+    assert_eq!(Option::<u8>::alphabet(Tier::Quick).len(), 4);
+    assert_eq!(String::alphabet(Tier::Quick).len(), 4);
+    assert_eq!(<()>::alphabet(Tier::Quick).len(), 1);
+  }
+
+  #[test]
+  fn reference_predicates_match_their_algebraic_form() {
+    for a in results() {
+      for b in results() {
+        assert_eq!(rel_equals(&a, &b), a == b);
+        assert_eq!(rel_ok_equals(&a, &b), a.ok() == b.ok());
+        assert_eq!(rel_err_equals(&a, &b), a.err() == b.err());
+        assert_eq!(rel_result(&a, &b), a.is_ok() == b.is_ok());
+        assert!(rel_always(&a, &b));
+      }
+    }
+  }
+
+  #[test]
+  fn reference_predicates_are_equivalences_and_ordered_by_coarseness() {
+    let rels: [fn(&Result<u8, u8>, &Result<u8, u8>) -> bool; 5] = [rel_equals, rel_ok_equals, rel_err_equals, rel_result, rel_always];
+    for r in rels {
+      for a in results() {
+        assert!(r(&a, &a));
+        for b in results() {
+          assert_eq!(r(&a, &b), r(&b, &a));
+          for c in results() {
+            if r(&a, &b) && r(&b, &c) { assert!(r(&a, &c)); }
+          }
+        }
+      }
+    }
+    for a in results() {
+      for b in results() {
+        if rel_equals(&a, &b) { assert!(rel_ok_equals(&a, &b) && rel_err_equals(&a, &b)); }
+        if rel_ok_equals(&a, &b) || rel_err_equals(&a, &b) { assert!(rel_result(&a, &b)); }
+      }
+    }
+  }
+
+  #[test]
+  fn reference_predicate_spot_values() {
+    assert!(rel_ok_equals::<u8, u8>(&Err(0), &Err(2)));
+    assert!(!rel_ok_equals::<u8, u8>(&Ok(0), &Ok(2)));
+    assert!(!rel_ok_equals::<u8, u8>(&Ok(0), &Err(0)));
+    assert!(rel_err_equals::<u8, u8>(&Ok(0), &Ok(2)));
+    assert!(!rel_err_equals::<u8, u8>(&Err(0), &Err(2)));
+    assert!(rel_result::<u8, u8>(&Err(0), &Err(2)));
+    assert!(!rel_result::<u8, u8>(&Err(0), &Ok(0)));
+  }
+
+  #[test]
+  fn judge_flags_a_wrong_direct_verdict() {
+    let e = E2eObs { execs: [(1, 1), (1, 1), (0, 0)], post_require_execs: [(0, 0); 2], post_require_checks: Default::default(),
+      require_stamps: [vec!["S1".into()], vec!["S2".into()], vec![]], checks: [vec![], vec![("S1".into(), true)], vec![]], dependency_check_errors: 0 };
+    let good = CaseObs { direct: Outcome::Done(TraitObs { stamp: "S1".into(), inconsistency: Some("x".into()) }), topdown: Outcome::Done(e.clone()), bottomup: Outcome::Done(e.clone()) };
+    assert!(judge(false, &good, Some("S2")).failures.is_empty());
+    assert!(!judge(true, &good, Some("S2")).failures.is_empty());
+    let mut bad = good.clone();
+    bad.direct = Outcome::Done(TraitObs { stamp: "S1".into(), inconsistency: None });
+    let fs = judge(false, &bad, Some("S2")).failures;
+    assert_eq!(fs.len(), 1);
+    assert_eq!(fs[0].oracle, "C12/relation");
+  }
+}
